@@ -29,6 +29,12 @@ def init_symbolic():
 
     assert betterproto.__file__.startswith(src), betterproto.__file__
     STUBS.extend(shims.install_core(betterproto))
+    import betterproto.casing
+    import betterproto.compile.importing
+
+    from . import symre
+
+    STUBS.extend(symre.install_text(betterproto.casing, betterproto.compile.importing))
     explore.start_coverage(src)
 
 
